@@ -29,7 +29,7 @@ where
 impl<V> Node<V> {
     /// Insert a new item into this node
     pub fn insert(mut self, regex: &str, id: String, item: V) -> Item<V> {
-        let mut max_prefix_size = self.regex.original.len() as u32;
+        let mut max_prefix_size = self.regex.original.chars().count() as u32;
         let prefix_size = common_prefix_char_size(regex, self.regex.original.as_str());
 
         if prefix_size < max_prefix_size {
@@ -46,6 +46,13 @@ impl<V> Node<V> {
         let mut max_prefix_item = None;
 
         for i in 0..self.children.len() {
+            // a leaf with the same regex must receive the value, even if its prefix is not longer than the one of this node
+            if matches!(self.children[i], Item::Leaf(_)) && self.children[i].regex() == regex {
+                max_prefix_item = Some(i);
+
+                break;
+            }
+
             let prefix_size = common_prefix_char_size(regex, self.children[i].regex());
 
             if prefix_size > max_prefix_size {
